@@ -31,11 +31,189 @@ impl HasAttributeRandomness<G> for Rands {
     fn get_attribute_commitment_randomness(&self, tag: &AttributeTag) -> Result<Randomness<G>, Self::ErrorType> { self.0.get(tag).cloned().ok_or(std::fmt::Error) }
 }
 
+/// Verifiable presentations (web3id): the same atoms inside a request with a context, about an account credential or a web3 credential.
+fn run_presentation(v: &J, global: &GlobalContext<G>, idx: u64, stats: &mut std::collections::BTreeMap<String, u64>) -> Result<(), (String, J, J)> {
+    use concordium_base::{
+        base::CredentialRegistrationID,
+        contracts_common::ContractAddress,
+        id::types::IpIdentity,
+        web3id::{did::Network, Challenge, CommitmentInputs, CredentialHolderId, CredentialProof, CredentialStatement, CredentialsInputs, Presentation, Request, SignedCommitments, Web3IdAttribute},
+    };
+    let mut rng = StdRng::seed_from_u64(idx + 1800);
+    let key = global.on_chain_commitment_key;
+    let vals: Vec<String> = v["vals"].as_array().unwrap().iter().map(|s| s.as_str().unwrap().to_string()).collect();
+    let attr = |i: &J| Web3IdAttribute::String(AttributeKind::try_new(vals[i.as_u64().unwrap() as usize - 1].clone()).unwrap());
+    let web3 = v["via"] == "web3_presentation";
+    let perturb = v["perturb"].as_str().unwrap();
+    let accept = v["accept"].as_bool().unwrap();
+    let truth = v["truth"].as_bool().unwrap();
+    *stats.entry(format!("{}:{}", v["via"].as_str().unwrap(), if accept { "accept" } else if truth { "perturbed" } else { "false" })).or_default() += 1;
+    // attribute values, randomness and commitments under numeric tags (account) and string tags (web3)
+    let mut vals_tag = BTreeMap::new();
+    let mut rand_tag = BTreeMap::new();
+    let mut cmm_tag = BTreeMap::new();
+    let mut vals_str = BTreeMap::new();
+    let mut rand_str = BTreeMap::new();
+    for (t, i) in v["attrs"].as_object().unwrap() {
+        let a = attr(i);
+        let (c, r) = key.commit(&Value::<G>::new(a.to_field_element()), &mut rng);
+        let tag = AttributeTag(t.parse::<u8>().unwrap());
+        vals_tag.insert(tag, a.clone());
+        rand_tag.insert(tag, r.clone());
+        cmm_tag.insert(tag, c);
+        vals_str.insert(t.clone(), a);
+        rand_str.insert(t.clone(), r);
+    }
+    let mk_set = |a: &J| -> BTreeSet<Web3IdAttribute> { a["set"].as_array().unwrap().iter().map(attr).collect() };
+    fn atom<T: Clone + concordium_base::common::Serialize>(a: &J, tag: T, attr: &dyn Fn(&J) -> Web3IdAttribute, set: &dyn Fn(&J) -> BTreeSet<Web3IdAttribute>) -> AtomicStatement<G, T, Web3IdAttribute> {
+        match a["k"].as_str().unwrap() {
+            "reveal" => AtomicStatement::RevealAttribute { statement: RevealAttributeStatement { attribute_tag: tag } },
+            "in_range" => AtomicStatement::AttributeInRange { statement: AttributeInRangeStatement { attribute_tag: tag, lower: attr(&a["lo"]), upper: attr(&a["hi"]), _phantom: Default::default() } },
+            "in_set" => AtomicStatement::AttributeInSet { statement: AttributeInSetStatement { attribute_tag: tag, set: set(a), _phantom: Default::default() } },
+            _ => AtomicStatement::AttributeNotInSet { statement: AttributeNotInSetStatement { attribute_tag: tag, set: set(a), _phantom: Default::default() } },
+        }
+    }
+    let holder_key = ed25519_dalek::SigningKey::from_bytes(&[7u8; 32]);
+    let other_key = ed25519_dalek::SigningKey::from_bytes(&[8u8; 32]);
+    let issuer_key = ed25519_dalek::SigningKey::from_bytes(&[9u8; 32]);
+    let holder_id = CredentialHolderId::new(holder_key.verifying_key());
+    let contract = ContractAddress::new(1337, 42);
+    let cred_id = CredentialRegistrationID::from_exponent(global, G::scalar_from_u64(4711));
+    let ty: BTreeSet<String> = ["VerifiableCredential".to_string(), "ConcordiumVerifiableCredential".to_string()].into_iter().collect();
+    let make_request = |stmt: &J, challenge: [u8; 32]| -> Request<G, Web3IdAttribute> {
+        let cs = if web3 {
+            CredentialStatement::Web3Id {
+                ty: ty.clone(),
+                network: Network::Testnet,
+                contract,
+                credential: holder_id,
+                statement: stmt.as_array().unwrap().iter().map(|a| atom(a, a["tag"].as_u64().unwrap().to_string(), &attr, &mk_set)).collect(),
+            }
+        } else {
+            CredentialStatement::Account {
+                network: Network::Testnet,
+                cred_id,
+                statement: stmt.as_array().unwrap().iter().map(|a| atom(a, AttributeTag(a["tag"].as_u64().unwrap() as u8), &attr, &mk_set)).collect(),
+            }
+        };
+        Request { challenge: Challenge::new(challenge), credential_statements: vec![cs] }
+    };
+    let signature = if web3 {
+        match SignedCommitments::from_secrets(global, &vals_str, &rand_str, &holder_id, &issuer_key, contract) {
+            Some(sc) => sc.signature,
+            None => return fail("issuer cannot sign the commitments".into(), J::Null, J::Null),
+        }
+    } else {
+        ed25519_dalek::Signature::from_bytes(&[0u8; 64])
+    };
+    let prove = |req: Request<G, Web3IdAttribute>, rng: &mut StdRng| {
+        let inputs: CommitmentInputs<'_, G, Web3IdAttribute, ed25519_dalek::SigningKey> = if web3 {
+            CommitmentInputs::Web3Issuer { signature, signer: &holder_key, values: &vals_str, randomness: &rand_str }
+        } else {
+            CommitmentInputs::Account { issuer: IpIdentity::from(17u32), values: &vals_tag, randomness: &rand_tag }
+        };
+        req.prove_with_rng(global, [inputs].into_iter(), rng, chrono::DateTime::<chrono::Utc>::from_timestamp(1_700_000_000, 0).unwrap())
+    };
+    let request = make_request(&v["stmt"], [1u8; 32]);
+    let what = |s: &str| format!("{} of statement {} over attributes {} (perturbation {}): {}", v["via"], v["stmt"], v["attrs"], perturb, s);
+    let mut pres: Presentation<G, Web3IdAttribute> = match prove(make_request(&v["stmt"], [1u8; 32]), &mut rng) {
+        Ok(p) => p,
+        Err(_) => {
+            if accept {
+                return fail(what("no presentation for a provable statement"), json!("presentation"), J::Null);
+            }
+            return Ok(());
+        }
+    };
+    let mut public = if web3 { CredentialsInputs::Web3 { issuer_pk: issuer_key.verifying_key().into() } } else { CredentialsInputs::Account { commitments: cmm_tag.clone() } };
+    // a second presentation (another context, and a statement that is always provable) to borrow parts from
+    let foreign = prove(make_request(&json!([{"k": "reveal", "tag": 0}]), [2u8; 32]), &mut rng).ok();
+    match perturb {
+        "none" => {}
+        "context" => pres.presentation_context = Challenge::new([3u8; 32]),
+        "public_data" => {
+            public = if web3 {
+                CredentialsInputs::Web3 { issuer_pk: other_key.verifying_key().into() }
+            } else {
+                let mut c = cmm_tag.clone();
+                for x in c.values_mut() {
+                    x.0 = x.0.plus_point(&key.g);
+                }
+                CredentialsInputs::Account { commitments: c }
+            }
+        }
+        "credential_id" => match &mut pres.verifiable_credential[0] {
+            // an account credential is identified on chain: the verifier looks its commitments up by the id in the presentation (the proof itself does not
+            // mention the id), so naming another credential means being checked against that credential's commitments - here one holding the SAME attribute
+            // values under other randomness
+            CredentialProof::Account { cred_id, .. } => {
+                *cred_id = CredentialRegistrationID::from_exponent(global, G::scalar_from_u64(4712));
+                let mut c = BTreeMap::new();
+                for (t, a) in vals_tag.iter() {
+                    c.insert(*t, key.commit(&Value::<G>::new(a.to_field_element()), &mut rng).0);
+                }
+                public = CredentialsInputs::Account { commitments: c };
+            }
+            CredentialProof::Web3Id { holder, .. } => *holder = CredentialHolderId::new(other_key.verifying_key()),
+        },
+        "statement" => {
+            // the verifier reads the statement out of the presentation: replace the atom by a neighbouring one, keep the proof
+            let a0 = &v["stmt"][0];
+            let mut a = a0.clone();
+            match a0["k"].as_str().unwrap() {
+                "reveal" => return Ok(()),
+                "in_range" => {
+                    let hi = a0["hi"].as_u64().unwrap();
+                    a["hi"] = json!(if (hi as usize) < vals.len() { hi + 1 } else { hi - 1 });
+                }
+                _ => {
+                    let mut s: Vec<u64> = a0["set"].as_array().unwrap().iter().map(|x| x.as_u64().unwrap()).collect();
+                    s.push(3);
+                    a["set"] = json!(s);
+                }
+            }
+            match &mut pres.verifiable_credential[0] {
+                CredentialProof::Account { proofs, .. } => proofs[0].0 = atom(&a, AttributeTag(a["tag"].as_u64().unwrap() as u8), &attr, &mk_set),
+                CredentialProof::Web3Id { proofs, .. } => proofs[0].0 = atom(&a, a["tag"].as_u64().unwrap().to_string(), &attr, &mk_set),
+            }
+        }
+        "foreign_proof" => match (foreign, &mut pres.verifiable_credential[0]) {
+            (Some(f), mine) => {
+                let theirs = f.verifiable_credential.into_iter().next().unwrap();
+                *mine = theirs;
+            }
+            _ => return Ok(()),
+        },
+        "foreign_linking" => match foreign {
+            Some(f) => pres.linking_proof = f.linking_proof,
+            None => return Ok(()),
+        },
+        o => return fail(format!("unknown perturbation {}", o), J::Null, J::Null),
+    }
+    let got = pres.verify(global, [public].iter());
+    let ok = match &got {
+        Ok(r) => *r == request || perturb != "none",
+        Err(_) => false,
+    };
+    // account presentations carry no linking signatures: borrowing an (empty) linking proof changes nothing
+    let vacuous = !web3 && perturb == "foreign_linking";
+    if got.is_ok() != accept && !(vacuous && truth) {
+        return fail(what("verifies exactly when the statement is provable and nothing was altered"), json!(accept), json!(got.is_ok()));
+    }
+    if accept && !ok {
+        return fail(what("verification returns the request the presentation was made for"), J::Null, J::Null);
+    }
+    Ok(())
+}
+
 pub fn main(args: &[String]) -> i32 {
     let global = GlobalContext::<G>::generate(String::from("vh-base C18"));
     let key = global.on_chain_commitment_key;
     drive(args, "c18-replay", |v, stats| {
         let idx = v["idx"].as_u64().unwrap_or(0);
+        if v["via"] != "commitments" {
+            return run_presentation(v, &global, idx, stats);
+        }
         let mut rng = StdRng::seed_from_u64(idx + 18);
         let vals: Vec<String> = v["vals"].as_array().unwrap().iter().map(|s| s.as_str().unwrap().to_string()).collect();
         let attr = |i: &J| AttributeKind::try_new(vals[i.as_u64().unwrap() as usize - 1].clone()).unwrap();
